@@ -20,7 +20,7 @@ if [ $AP -eq 0 ] && [ $S1 -eq 0 ]; then
     [ $E -ne 0 ] && ALARMS=$((ALARMS+1)) && echo "ALARM $Q exit=$E $L" && sed -n 2,3p /tmp/wt/hv_${NAME}_$Q.log | cut -c1-400
     RES="$RES{\"property\":\"$Q\",\"exit\":$E,\"line\":\"$(echo $L | sed 's/"/\\"/g')\"},"
   done
-  git -C /repo checkout -- .
+  git -C /repo checkout -- . && git -C /repo clean -fdq src
   git -C /repo status --short
 fi
 DEST=$V/seeded/harmless/$NAME
